@@ -3,7 +3,7 @@
 import json, os
 from vp import val, coqrun, rustrun
 from vp.val import cN, cZ, cbool, clist, cpair, cbytes
-from gen import c17wire, c17enum, c17typed
+from gen import c17wire, c17enum, c17typed, c17held
 
 # ---------------------------------------------------------------- constants
 ORIGIN, AS_PATH, NEXTHOP, MED, LOCAL_PREF, ATOMIC, AGGREGATOR, COMMUNITY, ORIGINATOR_ID, CLUSTER_LIST = range(1, 11)
@@ -940,6 +940,7 @@ class Prop:
         if c['k'] == 5: return [5, c['fam'], c['nlri'], expand(c['attrs']), c['id']]
         if c['k'] == 8: return [8, c['fam'], expand(c['x'])]
         if c['k'] == 9: return [9, c['w'], expand(c['msg'])]
+        if c['k'] == 10: return [10, c['fam'], c['b']]
         if c['k'] == 6: return [6, c['api']]
         if c['k'] == 7: return [7, evpn_to_valx(c['e'], out=False)]
         raise ValueError(c)
@@ -952,6 +953,7 @@ class Prop:
         if c['k'] == 4: return '(VL [])'     # the wide part has no model: judged by the oracle only
         if c['k'] == 8: return xnlri_to_coq(c) if xnlri_modelled(c) else '(VL [])'
         if c['k'] == 9: return c17typed.typed_to_coq(c)
+        if c['k'] == 10: return '(VL [])'
         if c['k'] == 6: return 'run_api_evpn_case %s' % api_evpn_to_coq(c['api'])
         if c['k'] == 7: return 'run_evpn_case %s' % evpn_to_coq(c['e'])
         if c['k'] == 5:
@@ -961,7 +963,7 @@ class Prop:
 
     # ---- generation
     def gen_cases(self, rng, tier):
-        cases = c17enum.enum_all() + c17typed.enum_typed()      # the classes enumerated on every run come first
+        cases = c17enum.enum_all() + c17typed.enum_typed() + c17held.enum_held()      # the classes enumerated on every run come first
         nw, na = (900, 1300) if tier == 'quick' else (9000, 13000)
         for code in WIRE_CODES + WIRE_SPECIAL + UNKNOWN_CODES[:6]:
             for _ in range(6):
@@ -1032,6 +1034,8 @@ class Prop:
     def canon(self, case, obs):
         if case['k'] == 9:
             return c17typed.typed_canon(case, obs)
+        if case['k'] == 10:
+            return []
         if case['k'] == 4 or (case['k'] == 8 and not xnlri_modelled(case)):
             return []       # not modelled (differential testing of the real round trip only)
         if case['k'] == 8 and len(obs) == 6:
@@ -1117,6 +1121,8 @@ class Prop:
             return oracle_xnlri(c, obs)
         if c['k'] == 9:
             return c17typed.oracle_typed(c, obs)
+        if c['k'] == 10:
+            return c17held.oracle_held(c, obs)
         if c['k'] == 6:
             if obs[0] == 0:
                 return None
@@ -1174,6 +1180,8 @@ class Prop:
             return why.startswith('wide[%s]:' % kf['id'])
         if c['k'] == 8:
             return why.startswith('xnlri[%s]:' % kf['id'])
+        if c['k'] == 10:
+            return why.startswith('held[%s]:' % kf['id'])
         if kf['id'] == 'C17-flags':
             # a held attribute of a defined type whose stored flags are not the canonical ones
             return c['k'] == 0 and obs[0] == 1 and obs[1][0] in CANON and obs[1][1] != CANON[obs[1][0]] \
@@ -1183,7 +1191,7 @@ class Prop:
     def nontrivial_key(self, c, obs):
         if obs == [-1] or not obs:
             return None
-        if c['k'] in (0, 1, 2, 5, 6, 8, 9) and obs[0] == 1:
+        if c['k'] in (0, 1, 2, 5, 6, 8, 9, 10) and obs[0] == 1:
             return json.dumps(self.case_to_val(c))
         if c['k'] == 7 and not wf_evpn(evpn_to_valx(c['e'])):
             return json.dumps(self.case_to_val(c))
@@ -1218,6 +1226,8 @@ class Prop:
             return ['xnlri', 'xnlri:%s:%s' % ({10: 'flowspec', 11: 'flowspec_vpn', 12: 'srpolicy', 13: 'rtc', 14: 'mup_isd', 15: 'mup_dsd', 16: 'mup_t1st', 17: 'mup_t2st', 18: 'ls_nlri'}.get(c['x'][0]), 'accepted' if obs and obs[0] == 1 else 'refused')]
         if c['k'] == 9:
             return ['typed', 'typed:%s:%s' % ({0: 'prefix_sid', 1: 'tunnel_encap', 2: 'ls_attribute'}[c['w']], 'accepted' if obs and obs[0] == 1 else 'refused')]
+        if c['k'] == 10:
+            return ['held', 'held:afi%d_safi%d:%s' % (c['fam'] >> 16, c['fam'] & 0xffff, 'decoded_%d' % min(len(obs[1]), 2) if obs and obs[0] == 1 else 'not_decoded')]
         if c['k'] == 5:
             return ['local_path', 'local_path:%s:attrs_%d' % ('accepted' if obs and obs[0] == 1 else 'rejected', min(len(c['attrs']), 4))]
         if c['k'] == 4:
